@@ -251,10 +251,13 @@ def run(ctx):
 
     def mk(fam, kind):
         if kind == "ts":
-            p = tv.EPOCH_US + rng.randint(0, 10**15)
+            # the bintime epoch itself (tick value 0) is a timestamp like any other
+            p = tv.EPOCH_US + (0 if rng.random() < 0.2 else rng.randint(0, 10**15))
             return convert_datetime(fams[fam][0], tv.DT_ORIGIN + dt.timedelta(microseconds=p))
-        return convert_timedelta(fams[fam][1], dt.timedelta(microseconds=rng.randint(-10**9, 10**9)))
-    for _ in range(60 if ctx.quick else 3000):
+        # zero-length offsets and intervals are values, not absences
+        us = rng.choice([0, 0, 1, -1]) if rng.random() < 0.4 else rng.randint(-10**9, 10**9)
+        return convert_timedelta(fams[fam][1], dt.timedelta(microseconds=us))
+    for _ in range(200 if ctx.quick else 4000):
         fam = rng.choice(list(fams))
         mode = rng.choice(list(SampleIntervalMode))
         if mode == SampleIntervalMode.IRREGULAR:
